@@ -367,6 +367,15 @@ def run(ctx, out, tier):
     shared.sh_merge(ctx, out, ctx.reachable_bodies())
     from rules.C03 import check_blank
     check_blank(ctx, out)
+    # the validator only runs if the lazy detection loop creates it: every pending detector is asked
+    # about every block (shared with C11/C13/C14)
+    from rules.C14 import check_once as _detect_once, detect_fn as _detect_fn
+    _dv = _detect_fn(ctx)
+    if _dv is not None:
+        _detect_once(ctx, out, _dv, rule="C09.detect")
+    else:
+        out.inst("C09.detect", 0, 4)
+    shared.sh_flags(ctx, out, "line-count", "C09.flags")
     return meta()
 
 
